@@ -137,6 +137,7 @@ def run_property(prop, tier="quick", seed=0, write_baseline=False, only=None, ve
     cover_verdicts = solve.solve_all(cover_obs, timeout_ms=4000, use_cvc5=False)
     # unknowns: ground instantiation first (proves or yields a candidate model), then a 4x budget alone
     ground_models = {}
+    retry = []
     for ob in proof_obs:
         v = verdicts[ob.name]
         if v.status == "unknown":
@@ -150,8 +151,14 @@ def run_property(prop, tier="quick", seed=0, write_baseline=False, only=None, ve
                 verdicts[ob.name] = solve.Verdict(ob.name, "failed", "z3-ground", v.time_s + time.time() - t0, "sat",
                                                   f"candidate counterexample from ground instances ({note}); full query: {v.reason}")
                 continue
-            v2 = solve.solve_all([ob], workers=1, timeout_ms=4 * solve.Z3_TIMEOUT_MS)[ob.name]
-            v2.time_s += v.time_s
+            retry.append(ob)
+    if retry:
+        # load-induced flips: retry (in parallel) with a doubled budget, only what the baseline had proved
+        again = [ob for ob in retry if ob.name in load_baseline().get(prop, [])]
+        v2s = solve.solve_all(again, timeout_ms=2 * solve.Z3_TIMEOUT_MS) if again else {}
+        for ob in again:
+            v2 = v2s[ob.name]
+            v2.time_s += verdicts[ob.name].time_s
             verdicts[ob.name] = v2
     solver_time = sum(v.time_s for v in verdicts.values()) + sum(v.time_s for v in cover_verdicts.values())
     wall_solve = time.time() - t_solve
@@ -298,8 +305,9 @@ def run_property(prop, tier="quick", seed=0, write_baseline=False, only=None, ve
         evidence["coverage"]["evaluations"] = ev
         evidence["coverage"]["distinct_nontrivial"] = sum(r.get("distinct_nontrivial", 0) for r in standin_reports)
         evidence["coverage"]["rule"] = "; ".join(f"{r['name']}: {r.get('rule', '')}" for r in standin_reports)
-    with open(os.path.join(VERIF, "evidence", f"{prop}.json"), "w") as f:
-        json.dump(evidence, f, indent=1, default=str)
+    if not os.environ.get("PV_NO_EVIDENCE"):
+        with open(os.path.join(VERIF, "evidence", f"{prop}.json"), "w") as f:
+            json.dump(evidence, f, indent=1, default=str)
     if write_baseline:
         b = load_baseline()
         b[prop] = sorted(ob.name for ob in proved)
